@@ -34,7 +34,7 @@ func checkC07(c *Ctx) {
 	c.Rule("C07-R8", "%i increments each of the first two parameters on its own (each increment depends only on that parameter being an integer)")
 	c.Rule("C07-R9", "every pop in TParm continues with the popped stack (the stack a Pop returns is never discarded)")
 	c.Expect("C07-R8", 2)
-	c.Expect("C07-R9", 20)
+	c.Expect("C07-R9", 10)
 	c.Rule("C07-R7", "%c writes exactly one byte, the low 8 bits of the popped integer (byte-addressed cursor strings rely on it for values of 128 and above)")
 	c.Expect("C07-R7", 1)
 	c.Expect("C07-R4", 4)
@@ -164,14 +164,39 @@ func c07BinOps(c *Ctx, p *Prog, fn *ssa.Function, dispatch ssa.Value) {
 	want := map[rune]token.Token{'+': token.ADD, '-': token.SUB, '*': token.MUL, '/': token.QUO, 'm': token.REM,
 		'&': token.AND, '|': token.OR, '^': token.XOR, '=': token.EQL, '>': token.GTR, '<': token.LSS}
 	seen := map[rune]bool{}
+	helperOrder := map[*ssa.BinOp]bool{}
 	eachInstr(fn, func(in ssa.Instruction) {
 		bo, ok := in.(*ssa.BinOp)
 		if !ok {
 			return
 		}
 		cx, cy := popIntResult(bo.X), popIntResult(bo.Y)
+		viaHelper := false
 		if cx == nil || cy == nil {
-			return
+			// the two pops may live in a helper that returns (left, right, rest): resolve the roles of
+			// its results from the helper's own body
+			ex, okx := bo.X.(*ssa.Extract)
+			ey, oky := bo.Y.(*ssa.Extract)
+			if !okx || !oky || ex.Tuple != ey.Tuple {
+				return
+			}
+			hc, isCall := ex.Tuple.(*ssa.Call)
+			if !isCall {
+				return
+			}
+			roles := popPairSummary(p, hc.Call.StaticCallee())
+			if roles == nil {
+				return
+			}
+			if roles[ex.Index] == 0 || roles[ey.Index] == 0 {
+				return
+			}
+			viaHelper = true
+			cx, cy = nil, nil
+			_ = cx
+			_ = cy
+			// X must be the second pop (left operand), Y the first pop (right operand)
+			helperOrder[bo] = roles[ex.Index] == 2 && roles[ey.Index] == 1
 		}
 		// which operator byte guards this block?
 		var opByte rune = -1
@@ -193,7 +218,9 @@ func c07BinOps(c *Ctx, p *Prog, fn *ssa.Function, dispatch ssa.Value) {
 		key := fmt.Sprintf("binop:%%%c", opByte)
 		// Y is the first pop: the X call takes the stack returned by the Y call
 		order := false
-		if len(cx.Call.Args) > 0 {
+		if viaHelper {
+			order = helperOrder[bo]
+		} else if len(cx.Call.Args) > 0 {
 			if ex, ok := cx.Call.Args[0].(*ssa.Extract); ok && ex.Index == 1 && ex.Tuple == ssa.Value(cy) {
 				order = true
 			}
@@ -243,11 +270,35 @@ func c07Stack(c *Ctx, p *Prog) {
 								if mi, ok := v.(*ssa.MakeInterface); ok {
 									v = mi.X
 								}
-								if k, ok := constInt(v); ok {
-									for _, g := range guardsAt(in.Block()) {
+								polAt := func(b *ssa.BasicBlock, k int64) {
+									for _, g := range guardsAt(b) {
 										if strings.HasSuffix(g.L, "#0") && (g.R == "true" || g.R == "false") {
 											pol := (g.Op == "==") == (g.R == "true")
 											got[fmt.Sprint(pol)] = k
+										}
+									}
+								}
+								if k, ok := constInt(v); ok {
+									polAt(in.Block(), k)
+								} else if phi, isPhi := v.(*ssa.Phi); isPhi {
+									// n := 0; if b { n = 1 }; append(st, n): the constant on each edge, with
+									// the polarity that holds on that edge
+									for i, e := range phi.Edges {
+										k, isK := constInt(e)
+										if !isK {
+											continue
+										}
+										pred := phi.Block().Preds[i]
+										before := len(got)
+										polAt(pred, k)
+										if len(got) == before {
+											// the edge comes straight from the test: polarity = the successor index
+											if iff, isIf := pred.Instrs[len(pred.Instrs)-1].(*ssa.If); isIf {
+												if at, okA := condAtom(iff.Cond, pred.Succs[0] == phi.Block()); okA && strings.HasSuffix(at.canon().L, "#0") {
+													a := at.canon()
+													got[fmt.Sprint((a.Op == "==") == (a.R == "true"))] = k
+												}
+											}
 										}
 									}
 								}
@@ -281,7 +332,16 @@ func c07Stack(c *Ctx, p *Prog) {
 									if st.Val == ssa.Value(push.Params[1]) {
 										okPass = true
 									} else if mi, ok := st.Val.(*ssa.MakeInterface); ok {
-										if _, isK := mi.X.(*ssa.Const); !isK {
+										_, isK := mi.X.(*ssa.Const)
+										if phi, isPhi := mi.X.(*ssa.Phi); isPhi {
+											isK = true
+											for _, e := range phi.Edges {
+												if _, k := e.(*ssa.Const); !k {
+													isK = false
+												}
+											}
+										}
+										if !isK {
 											extra += "pushes " + valName(mi.X) + " at " + p.pos(st.Pos()) + "; "
 										}
 									}
@@ -299,7 +359,7 @@ func c07Stack(c *Ctx, p *Prog) {
 				}
 			}
 		})
-		c.Check(okPass && extra == "" && nApp == 3, "C07-R2b", "Push:others-unchanged", p.pos(push.Pos()), fmt.Sprintf("%d appends: 1, 0 and the value itself %s", nApp, extra))
+		c.Check(okPass && extra == "" && nApp >= 2 && nApp <= 3, "C07-R2b", "Push:others-unchanged", p.pos(push.Pos()), fmt.Sprintf("%d appends: 1, 0 and the value itself %s", nApp, extra))
 	}
 	for _, f := range []*ssa.Function{popI, popS} {
 		conv := map[string]bool{}
@@ -315,12 +375,12 @@ func c07Stack(c *Ctx, p *Prog) {
 			switch x := in.(type) {
 			case *ssa.IndexAddr:
 				nidx++
-				if !hasAtom(guardsAt(in.Block()), Atom{"len(st)", ">", "0"}) {
+				if !nonEmptyAtom(guardsAt(in.Block()), "len(st)") {
 					guarded = false
 				}
 				_ = x
 			case *ssa.Slice:
-				if !hasAtom(guardsAt(in.Block()), Atom{"len(st)", ">", "0"}) {
+				if !nonEmptyAtom(guardsAt(in.Block()), "len(st)") {
 					guarded = false
 				}
 			}
@@ -463,19 +523,56 @@ func c07Loops(c *Ctx, p *Prog, fn *ssa.Function, chOf map[ssa.Value]*ssa.Call) {
 	if n < 4 {
 		c.Undecided("C07-R4", "loops", p.pos(fn.Pos()), fmt.Sprintf("only %d loops found in TParm", n))
 	}
-	// only Start writes the input buffer
+	// only Start writes the input: the fields NextCh reads from are found by role (whatever their names
+	// and representation: a bytes.Buffer, or a string with a read offset), and their writers are
+	// enumerated; NextCh itself may only move a read offset forward
+	nextCh := p.Fn("terminfo:(*paramsBuffer).NextCh")
+	inputFields := map[string]bool{}
+	if nextCh != nil {
+		eachInstr(nextCh, func(in ssa.Instruction) {
+			for _, op := range in.Operands(nil) {
+				if *op == nil {
+					continue
+				}
+				if ref, _, ok := fieldAddrRef(*op); ok && ref.Owner == "terminfo.paramsBuffer" {
+					inputFields[ref.Name] = true
+				}
+			}
+		})
+	}
 	writers := map[string]bool{}
+	backwards := ""
 	for _, f := range p.modFns {
 		if f.Pkg != p.Terminfo {
 			continue
 		}
 		eachInstr(f, func(in ssa.Instruction) {
+			if st, isSt := in.(*ssa.Store); isSt {
+				if ref, _, ok := fieldAddrRef(st.Addr); ok && ref.Owner == "terminfo.paramsBuffer" && inputFields[ref.Name] {
+					if f == nextCh {
+						okFwd := false
+						if bo, isBO := st.Val.(*ssa.BinOp); isBO && bo.Op == token.ADD {
+							if k, isK := constInt(bo.Y); isK && k > 0 {
+								if r2, _, ok2 := loadedField(bo.X); ok2 && r2.Name == ref.Name {
+									okFwd = true
+								}
+							}
+						}
+						if !okFwd {
+							backwards += "NextCh stores " + valName(st.Val) + " into " + ref.Name + "; "
+						}
+						return
+					}
+					writers[f.Name()] = true
+				}
+				return
+			}
 			cc := callCommon(in)
-			if cc == nil || len(cc.Args) == 0 {
+			if cc == nil || len(cc.Args) == 0 || f == nextCh {
 				return
 			}
 			ref, _, ok := fieldAddrRef(cc.Args[0])
-			if !ok || ref.String() != "terminfo.paramsBuffer.buf" {
+			if !ok || ref.Owner != "terminfo.paramsBuffer" || !inputFields[ref.Name] {
 				return
 			}
 			n := calleeName(cc)
@@ -484,7 +581,7 @@ func c07Loops(c *Ctx, p *Prog, fn *ssa.Function, chOf map[ssa.Value]*ssa.Call) {
 			}
 		})
 	}
-	c.Check(len(writers) == 1 && writers["Start"], "C07-R4", "input-buffer:only-Start-writes", "-", fmt.Sprintf("functions writing paramsBuffer.buf: %v", sortedKeys(writers)))
+	c.Check(len(inputFields) > 0 && len(writers) == 1 && writers["Start"] && backwards == "", "C07-R4", "input-buffer:only-Start-writes", "-", fmt.Sprintf("input fields (read by NextCh): %v; functions writing them: %v %s", sortedKeys(inputFields), sortedKeys(writers), backwards))
 }
 
 func firstPos(b *ssa.BasicBlock) token.Pos {
@@ -1417,4 +1514,71 @@ func c07Handlers(c *Ctx, p *Prog, fn *ssa.Function, dispatch ssa.Value) {
 	} else {
 		c.Undecided("C07-R11", "op:%~", p.pos(fn.Pos()), "case not found")
 	}
+}
+
+// popPairSummary: for a helper that pops two integers off a stack and returns them (in any order, plus
+// the rest of the stack), the role of each result index: 1 = the value popped first (the right operand
+// of a binary operator), 2 = the value popped second (the left operand).  nil if h is not such a helper.
+func popPairSummary(p *Prog, h *ssa.Function) map[int]int {
+	if h == nil || len(h.Blocks) == 0 || h.Pkg != p.Terminfo {
+		return nil
+	}
+	var pops []*ssa.Call
+	eachInstr(h, func(in ssa.Instruction) {
+		if call, ok := in.(*ssa.Call); ok && strings.HasSuffix(calleeName(&call.Call), "stack).PopInt") {
+			pops = append(pops, call)
+		}
+	})
+	if len(pops) != 2 {
+		return nil
+	}
+	// first = the one whose stack argument is not derived from the other pop
+	first, second := pops[0], pops[1]
+	derives := func(a, b *ssa.Call) bool { // a's receiver comes from b's result
+		if len(a.Call.Args) == 0 {
+			return false
+		}
+		ex, ok := a.Call.Args[0].(*ssa.Extract)
+		return ok && ex.Tuple == ssa.Value(b) && ex.Index == 1
+	}
+	switch {
+	case derives(pops[1], pops[0]):
+	case derives(pops[0], pops[1]):
+		first, second = pops[1], pops[0]
+	default:
+		return nil
+	}
+	rets := returnsOf(h)
+	if len(rets) != 1 {
+		return nil
+	}
+	roles := map[int]int{}
+	for i, r := range rets[0].Results {
+		if ex, ok := r.(*ssa.Extract); ok && ex.Index == 0 {
+			switch ex.Tuple {
+			case ssa.Value(first):
+				roles[i] = 1
+			case ssa.Value(second):
+				roles[i] = 2
+			}
+		}
+	}
+	if len(roles) != 2 {
+		return nil
+	}
+	return roles
+}
+
+// nonEmptyAtom: the guards say that the length expression l is at least one, in any of the forms a
+// programmer writes it (l > 0, l != 0, l >= 1, or the false edge of l == 0 / l < 1 / l <= 0).
+func nonEmptyAtom(g []Atom, l string) bool {
+	for _, a := range g {
+		if a.L == l && ((a.Op == ">" && a.R == "0") || (a.Op == "!=" && a.R == "0") || (a.Op == ">=" && a.R == "1")) {
+			return true
+		}
+		if a.R == l && ((a.Op == "<" && a.L == "0") || (a.Op == "!=" && a.L == "0") || (a.Op == "<=" && a.L == "1")) {
+			return true
+		}
+	}
+	return false
 }
